@@ -16,6 +16,7 @@
 EXTENDS Integers, Sequences, FiniteSets, TLC, Json
 
 CONSTANTS Threads, Frames, Explicits, MaxDepth, MaxLen, Gen,
+          Loose,    \* TRUE: configurations may also be installed without a with block (Install)
           DefB,     \* kind of the process-wide default backend: "proc" (loky, the stock default) or "thr" (a thread-based backend registered with make_default=True)
           ProcAvail \* FALSE: no process-based backend exists in this interpreter (JOBLIB_MULTIPROCESSING=0, or a platform without working
                     \* semaphores): the stock default is the threading backend, naming "loky"/"multiprocessing" falls back to it (with a
@@ -26,10 +27,14 @@ ASSUME ~ProcAvail => DefB = "thr"
 Keys == {"b", "nj", "vb", "mx", "mm", "tf", "pf", "rq"}
 Default == [b |-> "proc", nj |-> "default", vb |-> "0", mx |-> "1M", mm |-> "r", tf |-> "None", pf |-> "None", rq |-> "None"]
 
-VARIABLES stack, hist
-vars == <<stack, hist>>
+VARIABLES stack, hist,
+          loose       \* [Threads -> Seq(BOOLEAN)], parallel to stack: TRUE for a configuration installed WITHOUT a with block
+                      \* (parallel_config(...) / parallel_backend(...) called as a plain statement: it takes effect at once and
+                      \* nobody unregisters it); leaving an enclosing with block restores what was active when that block was
+                      \* entered, i.e. removes the loose configurations installed inside it as well
+vars == <<stack, hist, loose>>
 
-Init == stack = [t \in Threads |-> <<>>] /\ hist = <<>>
+Init == stack = [t \in Threads |-> <<>>] /\ hist = <<>> /\ loose = [t \in Threads |-> <<>>]
 
 \* innermost setting of key k on stack s, or "U"
 RECURSIVE Innermost(_, _)
@@ -68,19 +73,25 @@ Log(a) == hist' = IF Gen THEN Append(hist, [act |-> a, obs |-> Observations]) EL
 
 Enter(t, f) ==
   /\ Len(stack[t]) < MaxDepth
-  /\ stack' = [stack EXCEPT ![t] = Append(@, f)]
+  /\ stack' = [stack EXCEPT ![t] = Append(@, f)] /\ loose' = [loose EXCEPT ![t] = Append(@, FALSE)]
   /\ Log([op |-> "enter", t |-> t, f |-> f])
+Install(t, f) ==        \* the same configuration object used as a plain statement inside a with block of this thread
+  /\ Len(stack[t]) < MaxDepth /\ \E k \in 1..Len(loose[t]) : ~loose[t][k]
+  /\ stack' = [stack EXCEPT ![t] = Append(@, f)] /\ loose' = [loose EXCEPT ![t] = Append(@, TRUE)]
+  /\ Log([op |-> "install", t |-> t, f |-> f])
 FailEnter(t, f) ==      \* a context whose construction raises (e.g. an unknown backend name): nothing it carries may take effect
   /\ Len(stack[t]) < MaxDepth
-  /\ UNCHANGED stack
+  /\ UNCHANGED <<stack, loose>>
   /\ Log([op |-> "fail_enter", t |-> t, f |-> f])
+\* innermost with-entered configuration of thread t (0 if none)
+TopWith(t) == IF \E k \in 1..Len(loose[t]) : ~loose[t][k] THEN CHOOSE k \in 1..Len(loose[t]) : ~loose[t][k] /\ \A j \in (k + 1)..Len(loose[t]) : loose[t][j] ELSE 0
 Exit(t, how) ==
-  /\ stack[t] # <<>>
-  /\ stack' = [stack EXCEPT ![t] = SubSeq(@, 1, Len(@) - 1)]
+  /\ TopWith(t) # 0
+  /\ stack' = [stack EXCEPT ![t] = SubSeq(@, 1, TopWith(t) - 1)] /\ loose' = [loose EXCEPT ![t] = SubSeq(@, 1, TopWith(t) - 1)]
   /\ Log([op |-> "exit", t |-> t, how |-> how])
 
 Next == /\ (~Gen \/ Len(hist) < MaxLen)
-        /\ \E t \in Threads : (\E f \in Frames : Enter(t, f) \/ (Gen /\ FailEnter(t, f))) \/ (\E how \in {"return", "exception"} : Exit(t, how))
+        /\ \E t \in Threads : (\E f \in Frames : Enter(t, f) \/ (Gen /\ FailEnter(t, f)) \/ (Loose /\ Install(t, f))) \/ (\E how \in {"return", "exception"} : Exit(t, how))
 Spec == Init /\ [][Next]_vars
 
 \* --- properties of the specification itself
@@ -88,6 +99,9 @@ Spec == Init /\ [][Next]_vars
 Isolated == [][\A t \in Threads : stack'[t] = stack[t] => \A i \in 1..Len(Explicits) : Expect(stack'[t], Explicits[i]) = Expect(stack[t], Explicits[i])]_vars
 \* restoration: after an exit the thread observes what it observed before the matching enter
 Restored == [][\A t \in Threads, f \in Frames : Enter(t, f) => SubSeq(stack'[t], 1, Len(stack'[t]) - 1) = stack[t]]_vars
+\* ... also when configurations were installed without a with block in between: an exit brings back exactly what was active when
+\* the matching with block was entered
+RestoredAtExit == [][\A t \in Threads : (TopWith(t) # 0 /\ Len(stack'[t]) < Len(stack[t])) => stack'[t] = SubSeq(stack[t], 1, TopWith(t) - 1)]_vars
 \* sharedmem is never satisfied by a process backend; explicit backend wins over prefer
 SharedMemIsThreads ==
   \A t \in Threads, i \in 1..Len(Explicits) :
@@ -104,5 +118,5 @@ PreferIsAHint ==
        x.kind # "ok" => (Resolve(stack[t], e, "rq") = "sharedmem" /\ (Resolve(stack[t], e, "pf") = "processes" \/ Eff(e.b) = "proc"))
 
 Emit == (Gen /\ Len(hist) = MaxLen) => PrintT(ToJson(hist))
-View == stack
+View == <<stack, loose>>
 =============================================================================
